@@ -688,7 +688,7 @@ func roleLenOf(inner role) role {
 func roleParam(fn *ssa.Function, name string) role {
 	return func(v ssa.Value) bool {
 		p, ok := stripConv(v).(*ssa.Parameter)
-		return ok && p.Parent() == fn && p.Name() == name
+		return ok && p.Parent() == fn && isRefParam(p, name)
 	}
 }
 
